@@ -5,7 +5,13 @@
    element and cannot close an element opened outside the current entity, reserved prefixes and URIs,
    entity references are declared (first declaration wins), and the document-level token shape: only
    comments / PIs (and entity declarations) before the root, at most one root element, only
-   comments / PIs after it.
+   comments / PIs after it.  (3) Soundness against the grammar on the byte fragment that Spec/Cst.v covers
+   (in_fragment, Proofs/CstSound.v: printable ASCII / TAB / LF, no '&', no ':', no '<!D' '<![' '<?xml' 'xmlns';
+   attrs_raw: no attribute value was normalised): every ACCEPTED input is the rendering of a well-formed abstract
+   document (parse_sound_fragment) -- the parser accepts nothing outside the grammar there -- and its tree is that
+   document's meaning (parse_sound_and_complete).  (4) Truncation: for EVERY accepted document without a DOCTYPE and
+   every cut (on a character boundary) before the end of its root element, the prefix is rejected
+   (truncation_rejected_partial; root_element_end d and firstn_N are defined in Proofs/TruncMain.v).
    Statements are pinned here (copied verbatim from the proof files by tools/pin_props.py);
    each is re-proved by `exact` and followed by Print Assumptions. *)
 From Coq Require Import Ascii String.
@@ -14,7 +20,8 @@ Import ListNotations.
 From RX Require Import Generated.
 From RX.Model Require Import Base CharClass Stream Tokenizer Doc Builder Parse Api.
 From RX.Spec Require Chars.
-From RX.Proofs Require Import CharTablesProofs RejectProofs WfParseTok WfParseChars WfParse.
+From RX.Spec Require Cst.
+From RX.Proofs Require Import CharTablesProofs RejectProofs WfParseTok WfParseChars WfParse CstSound CstSoundDoc CstSoundCor TruncMain.
 Open Scope N_scope.
 
 (* ---- Proofs/CharTablesProofs.v ---- *)
@@ -221,3 +228,42 @@ Theorem C08_parse_doc_wf :
   forall text opt d, parse text opt = Ok d -> doc_wf text d.
 Proof. exact parse_doc_wf. Qed.
 Print Assumptions C08_parse_doc_wf.
+
+(* ---- Proofs/CstSoundDoc.v ---- *)
+Theorem C08_parse_sound_fragment :
+  forall text opt d,
+  in_fragment text = true -> parse text opt = Ok d -> attrs_raw d ->
+  exists c : Cst.doc, Cst.wf_doc c = true /\ Cst.render c = text.
+Proof. exact parse_sound_fragment. Qed.
+Print Assumptions C08_parse_sound_fragment.
+
+(* ---- Proofs/CstSoundCor.v ---- *)
+Theorem C08_parse_sound_and_complete :
+  forall text opt d,
+  in_fragment text = true -> parse text opt = Ok d -> attrs_raw d ->
+  N.of_nat (length text) <= nodes_limit opt ->      (* room for all nodes *)
+  N.of_nat (length text) <= u32_max ->              (* the input is at most u32::MAX bytes long *)
+  exists c : Cst.doc,
+    Cst.wf_doc c = true /\ Cst.render c = text /\ CstMain.view text d = Cst.sem c.
+Proof. exact parse_sound_and_complete. Qed.
+Print Assumptions C08_parse_sound_and_complete.
+
+(* ---- Proofs/TruncMain.v ---- *)
+Theorem C08_truncation_not_ok_partial :
+  forall text opt d n,
+  contains_b (b "<!DOCTYPE") text = false ->
+  valid_utf8_b text = true -> parse text opt = Ok d -> n < root_element_end d ->
+  valid_utf8_b (firstn_N n text) = true ->
+  forall d', parse (firstn_N n text) opt <> Ok d'.
+Proof. exact truncation_not_ok_partial. Qed.
+Print Assumptions C08_truncation_not_ok_partial.
+
+Theorem C08_truncation_rejected_partial :
+  forall text opt d n,
+  contains_b (b "<!DOCTYPE") text = false ->
+  nodes_limit opt <= u32_max ->
+  valid_utf8_b text = true -> parse text opt = Ok d -> n < root_element_end d ->
+  valid_utf8_b (firstn_N n text) = true ->
+  exists e, parse (firstn_N n text) opt = Err e.
+Proof. exact truncation_rejected_partial. Qed.
+Print Assumptions C08_truncation_rejected_partial.
